@@ -184,6 +184,10 @@ def finish(pid, tier, level, results, t0, extra_cov=None, assumptions=None):
         if a not in assume:
             assume.append(a)
 
+    capped = [c for r in results for c in (r.get("extra", {}).get("capped") or [])]
+    if capped:
+        cov["capped"] = capped
+        cov["exhaustive"] = False
     new, listed = [], []
     for sig, v in sorted(viol.items()):
         if (pid, sig) in known:
@@ -215,6 +219,8 @@ def finish(pid, tier, level, results, t0, extra_cov=None, assumptions=None):
     json.dump(ev, open(os.path.join(VERIF, "evidence", pid + ".json"), "w"), indent=1)
     for l in lines:
         print(l, flush=True)
+    if capped and not new:
+        raise Machinery("exploration stopped at a cap before the stated bound without finding a violation: %s" % capped)
     print("%s %s: %s; evaluations=%d states=%s violations=%d known=%d wall=%.1fs" % (pid, tier, "HELD" if not new else "VIOLATED", cov["evaluations"], cov.get("states", "-"), len(new), len(listed), time.time() - t0), flush=True)
     return 1 if new else 0
 
@@ -226,7 +232,7 @@ def simple(pid, level, sub, configs_quick, configs_thorough=None):
         t0 = time.time()
         selftest()
         cfgs = configs_quick if tier == "quick" else (configs_thorough or configs_quick)
-        results = [run_engine(c, [sub, "--tier", tier], "%s-%s-%s" % (pid, tier, c)) for c in cfgs]
+        results = [run_engine(c, [sub, "--tier", tier], "%s-%s-%s" % (pid, tier, c), timeout=(900 if tier == "quick" else 6 * 3600)) for c in cfgs]
         return finish(pid, tier, level, results, t0)
     return run
 
